@@ -6,7 +6,8 @@ from vlib import Check
 HRES_POOL = ["ms(4f4b)", "mi(31)", "mb(76616c)", "mn", "ma[b(61),b(62)]", "ma[]", "n", "e" + L.hx(b"boom"), "e" + L.hx(b"bad\r\n+OK\r\n"),
              "ms(" + L.hx(b"x\r\n:1\r\n") + ")", "me(" + L.hx(b"ERR y\r\n$-1\r\n") + ")", "mi(" + L.hx(b"12\r\n+OK") + ")",
              "bs(4f4b)|" + L.hx(b"both"), "ma[a[b(61)],n,i(37)]", "mb(" + L.hx(b"\r\n\x00$") + ")", "mb(-)", "ma[b(6b31),b(7631),b(6b32),b(7632)]",
-             "ma[b(61),b(312e35),b(62),b(32)]", "mb(3432)", "mb(2d37)", "mb(" + L.hx(b"9223372036854775807") + ")", "mi(3432)", "ms(3432)", "q"]
+             "ma[b(61),b(312e35),b(62),b(32)]", "mb(3432)", "mb(2d37)", "mb(" + L.hx(b"9223372036854775807") + ")", "mi(3432)", "ms(3432)",
+             "mN", "ma[N,b(61),a[N]]", "q"]
 
 def prep(chk, pid):
     broken = vlib.standard_proof_stage(chk, pid)
@@ -149,6 +150,27 @@ def run_c03(tier, seed):
             else:
                 args = [b"e%d" % i for i in range(nargs)]
             cases.append(dict(reqs=[(name, args), ("PING", []), ("ECHO", [b"end"])], line=None, chunk=rng.choice(["whole", "pipeline", "kway"]), quit_at=None))
+    # argument values that mean something elsewhere in the code: every string literal of the source under test (command names,
+    # option words, sentinel error texts, configuration keys - also those a change has just introduced) as the first and as the
+    # second argument of every command; each request is followed by others on the same connection, which must be answered
+    import thresholds as T
+    words = [w.encode() for w in T.mined_strings()]
+    newwords = [w.encode() for w in T.new_strings()]
+    allcmds = G.DIRECT + G.DERIVED + ["PING", "ECHO", "SELECT", "CONFIG", "AUTH"]
+    for name in allcmds:
+        per = 12
+        pool = words if tier != "quick" else (words[(len(name) * 7) % 5::5] + newwords)
+        for i in range(0, len(pool), per):
+            reqs = []
+            for w in pool[i:i + per]:
+                reqs.append((name, [w]))
+                reqs.append((name, [b"k", w]))
+            reqs.append(("PING", []))
+            cases.append(dict(reqs=reqs, line=None, chunk="pipeline" if i % 2 else "whole", quit_at=None, magic=True))
+    for key in newwords:
+        for vals in ((b"no", b"yes", b"no"), (b"0", b"1", b"x")):
+            reqs = [("CONFIG", [b"SET", key, v]) for v in vals] + [("CONFIG", [b"GET", key]), ("PING", []), ("GET", [b"k"]), ("CONFIG", [b"SET", key, vals[1]]), ("ECHO", [b"end"])]
+            cases.append(dict(reqs=reqs, line=None, chunk="whole", quit_at=None))
     # the SECOND and THIRD use of the same request on one server (state a first use leaves behind: caches, locks, registrations)
     for name in G.DIRECT:
         nm_, args_, _ = G.gen_direct(rng, name)
@@ -283,6 +305,8 @@ def tree_encode(t):
         c = s[i]
         if c == "n":
             return b"$-1\r\n", i + 1
+        if c == "N":        # an array message whose array was never set is serialised as the empty array
+            return b"*0\r\n", i + 1
         if c in "seib":
             j = s.index(")", i)
             p = L.unhx(s[i + 2:j])
@@ -575,6 +599,19 @@ def run_c05(tier, seed):
     for nm_, args_ in sib:
         sibc.append(dict(line=L.mkcase([(0, "f" + L.hx(G.request_bytes(nm_, args_))), (0, "e")], tbl={"ZRangeByScore:" + L.hx(b"z"): zres, "ZRange:" + L.hx(b"z"): zres, "Get:" + L.hx(b"n"): "mb(3130)"}, default="mn"),
                          desc=req_desc(nm_, args_)))
+    # options given to one request are not remembered by the next: the same command with fewer options afterwards, on the same
+    # connection and on another one
+    seqs = [[("SCAN", [b"0", b"MATCH", b"user:*", b"COUNT", b"3"]), ("SCAN", [b"0"]), ("SCAN", [b"0", b"COUNT", b"7"]), ("SCAN", [b"0", b"MATCH", b"a?"]), ("SCAN", [b"5"])],
+            [("SET", [b"k", b"v", b"EX", b"100", b"NX"]), ("SET", [b"k", b"v"]), ("SET", [b"k", b"v", b"XX", b"GET"]), ("SET", [b"k", b"v"])],
+            [("ZADD", [b"z", b"NX", b"CH", b"1", b"a"]), ("ZADD", [b"z", b"2", b"b"]), ("ZADD", [b"z", b"XX", b"3", b"c"]), ("ZADD", [b"z", b"4", b"d"])],
+            [("ZRANGE", [b"z", b"0", b"-1", b"REV", b"WITHSCORES"]), ("ZRANGE", [b"z", b"0", b"-1"]), ("ZRANGEBYSCORE", [b"z", b"(1", b"(3", b"LIMIT", b"1", b"1", b"WITHSCORES"]), ("ZRANGEBYSCORE", [b"z", b"1", b"3"])],
+            [("EXPIRE", [b"k", b"100", b"NX"]), ("EXPIRE", [b"k", b"100"]), ("EXPIRE", [b"k", b"100", b"GT"]), ("EXPIRE", [b"k", b"100"])],
+            [("LPUSHX", [b"l", b"a"]), ("LPUSH", [b"l", b"a"]), ("RPUSHX", [b"l", b"a"]), ("RPUSH", [b"l", b"a"])], [("LPOP", [b"l", b"3"]), ("LPOP", [b"l"]), ("RPOP", [b"l", b"2"]), ("RPOP", [b"l"])]]
+    for sq in seqs:
+        for two in (False, True):
+            steps = [((i % 2) if two else 0, "f" + L.hx(G.request_bytes(n_, a_))) for i, (n_, a_) in enumerate(sq)] + [(0, "e")] + ([(1, "e")] if two else [])
+            sibc.append(dict(line=L.mkcase(steps, conns=2 if two else 1, tbl={"ZRangeByScore:" + L.hx(b"z"): zres, "ZRange:" + L.hx(b"z"): zres}, default="mn"),
+                             desc=" ; ".join(req_desc(n_, a_) for n_, a_ in sq) + (" [alternating between two connections]" if two else "")))
     for c in run_cases(chk, sibc):
         if basic_monitors(chk, "C05", c):
             corr(chk, c, sig="sibling-arguments")
@@ -670,6 +707,46 @@ def run_c10(tier, seed):
             data = G.request_with_nulls(name, args) + G.request_bytes("PING", []) + G.request_bytes("GET", [b"after"])
             cases.append(dict(name=name, kind=kind + "@long", args=args[:3], follow=follow, db=0, line=L.mkcase([(0, "f" + L.hx(data)), (0, "e")], default="mb(76)"),
                               desc="%s with %d elements, %s at the end" % (name, len(args) + 1, kind)))
+    # "without side effects" includes the NEXT request: after a refused request, a well-formed request of the same family (on the
+    # same connection, and on another connection of the same server) reaches the handler exactly as it does on a fresh server
+    groups = [[("MSET", [b"x", b"1", b"y", b"2"]), ("MSETNX", [b"x", b"1", b"y", b"2"]), ("HMSET", [b"h", b"x", b"1", b"y", b"2"]), ("MSET", [])],
+              [("ZADD", [b"z", b"1", b"a", b"2", b"b"]), ("SADD", [b"s", b"a", b"b"]), ("RPUSH", [b"l", b"a", b"b"]), ("DEL", [b"a", b"b"]), ("MGET", [b"a", b"b"]), ("HMGET", [b"h", b"a", b"b"])],
+              [("SET", [b"k", b"v", b"EX", b"10"]), ("SET", [b"k", b"v"]), ("EXPIRE", [b"k", b"10"]), ("SETEX", [b"k", b"10", b"v"])],
+              [("ZRANGEBYSCORE", [b"z", b"1", b"2", b"LIMIT", b"0", b"1"]), ("ZRANGE", [b"z", b"0", b"-1"]), ("ZREVRANGEBYSCORE", [b"z", b"2", b"1"]), ("SCAN", [b"0"]), ("SCAN", [b"0", b"COUNT", b"5"])]]
+    after = []
+    alone = {}
+    for grp in groups:
+        for gname, gargs in grp:
+            key = (gname, tuple(gargs))
+            alone[key] = dict(line=L.mkcase([(0, "f" + L.hx(G.request_bytes(gname, gargs))), (0, "e")], default="mn"), desc="%s alone" % req_desc(gname, gargs))
+        names = sorted({g[0] for g in grp if g[1]})
+        for bname in names:
+            if bname not in G.SIGS:
+                continue
+            for kind, bargs in G.malformations(rng, bname):
+                if not bargs:
+                    continue
+                for gname, gargs in grp:
+                    for two in (False, True):
+                        bad, good = G.request_with_nulls(bname, bargs), G.request_bytes(gname, gargs)
+                        steps = [(0, "f" + L.hx(bad)), (1 if two else 0, "f" + L.hx(good)), (0, "e")] + ([(1, "e")] if two else [])
+                        after.append(dict(line=L.mkcase(steps, conns=2 if two else 1, default="mn"), key=(gname, tuple(gargs)), two=two,
+                                          desc="%s [%s] ; then %s%s" % (req_desc(bname, bargs), kind, req_desc(gname, gargs), " on another connection" if two else "")))
+    alone_l = list(alone.values())
+    for c in run_cases(chk, alone_l):
+        c["calls"] = sorted(x[4] for x in L.calls_of(c["iobs"].conns[0][1]))
+    for c in run_cases(chk, after):
+        base = alone[c["key"]].get("calls")
+        evs = c["iobs"].conns[1 if c["two"] else 0][1]
+        got = sorted(x[4] for x in L.calls_of(evs))
+        if not c["two"]:
+            # the refused request itself made no call: all calls of this connection belong to the well-formed one
+            pass
+        if base is not None and got != base:
+            chk.violation("refused-request-leaks", "%s: the well-formed request reached the handler as %s; on a fresh server it reaches it as %s" % (c["desc"], got[:6], base[:6]),
+                          dict(case=c["line"], desc=c["desc"], got=got, expected=base))
+        else:
+            corr(chk, c, sig="after-refusal")
     # random corruption of valid requests (monitors: hang/panic/frames only)
     nrand = 600 if tier == "quick" else 8000
     for _ in range(nrand):
@@ -760,6 +837,15 @@ def run_c11(tier, seed):
                 cases.append(dict(reqs=reqs, k=k, j=j, mode="wf", nowrites=True, line=L.mkcase([(0, "w"), (0, "f" + L.hx(data[:k])), (0, "e" if (k + pi) % 2 else "x")], default="mb(76)"),
                                   desc="pipeline %s: the client is gone before the server reads (every answer write fails), stream ends at byte %d of %d" %
                                        (" ; ".join(req_desc(n, a) for n, a in reqs)[:200], k, len(data))))
+        # the last bytes arrive TOGETHER with the end of the stream (one Read returns n > 0 and io.EOF - crypto/tls does that when the
+        # peer's close_notify is already buffered): a request that was received completely that way is executed and answered
+        for k in sorted(set(ends + [e - 2 for e in ends] + [len(data)])):
+            if 0 < k <= len(data):
+                j = sum(1 for e in ends if e <= k)
+                cut = max(0, k - 1 - (k + pi) % 7)
+                cases.append(dict(reqs=reqs, k=k, j=j, mode="eof-with-data", line=L.mkcase(([(0, "f" + L.hx(data[:cut]))] if cut else []) + [(0, "E" + L.hx(data[cut:k]))], default="mb(76)"),
+                                  desc="pipeline %s: stream ends at byte %d of %d, the last %d bytes delivered together with the end of the stream" %
+                                       (" ; ".join(req_desc(n, a) for n, a in reqs)[:200], k, len(data), k - cut)))
     # a request with more elements than the parser pre-allocates for (proto.maxArrayPrealloc = 1024), behind a small complete one:
     # the stream ends at / around every element boundary near the cap and its doublings, and at every byte of the elements around the cap
     for n_el, pi2 in ((1030, 0), (2052, 1)) if tier == "quick" else ((1025, 0), (1030, 1), (1500, 0), (2052, 1), (4100, 0)):
@@ -902,6 +988,18 @@ def run_c20(tier, seed):
             steps = ([(0, "f" + L.hx(data + tail))] if data + tail else []) + [(0, "S")]
             cases.append(dict(line=L.mkcase(steps, default="mb(76)"), endk="server-stop", nocorr=True,
                               desc="%s%s, then the server is stopped [end: Stop]" % (" ; ".join(req_desc(n_, a) for n_, a in pre) or "(nothing sent)", " + a partial request" if tail else "")))
+    # configuration keys and values a change has introduced (string literals the pinned tree does not have): switched back and forth
+    # by CONFIG SET between ordinary requests - whatever the key turns on or off, every iteration stays bracketed by balanced spans
+    import thresholds as T
+    nw = [w.encode() for w in T.new_strings()]
+    for key in nw:
+        for vals in ([b"no", b"yes"], [b"0", b"1"], [b"yes", b"no", b"yes"]) + tuple([v, b"yes"] for v in nw if v != key)[:3]:
+            reqs = [("PING", [])]
+            for v in vals:
+                reqs += [("CONFIG", [b"SET", key, v]), ("GET", [b"k"]), ("STRLEN", [b"k"])]
+            data = b"".join(G.request_bytes(n_, a) for n_, a in reqs)
+            cases.append(dict(line=L.mkcase([(0, "f" + L.hx(G.request_bytes(n_, a))) for n_, a in reqs] + [(0, "e")], default="mb(76)"), endk="new-config-key",
+                              desc=" ; ".join(req_desc(n_, a) for n_, a in reqs)))
     # two connections contend for the command lock: connection 0's handler call is held inside the handler while connection 1's
     # request arrives and waits for the lock; every iteration of BOTH connections is still bracketed by its own balanced spans
     for other in ([("PING", [])], [("GET", [b"k"]), ("STRLEN", [b"k"])], [("NOSUCH", [])], [("SET", [b"k", b"v"]), ("QUIT", [])]):
